@@ -64,7 +64,8 @@ pub fn make_conc_case(real_prop: &str, seed: u64, tier: Tier) -> Case {
     let cyclic = match prop {
         "C18" => true,
         "C14" => true,
-        "C20" | "C21" | "C22" | "C19" => r.pct(45),
+        "C20" => r.pct(65),
+        "C21" | "C22" | "C19" => r.pct(45),
         _ => false,
     };
     let prog = if cyclic {
@@ -241,7 +242,7 @@ pub fn make_conc_case(real_prop: &str, seed: u64, tier: Tier) -> Case {
                     _ => WriterOp::TriggerCancel,
                 };
                 round.writer = Some(op);
-                round.writer_delay = r.below(30) as u8;
+                round.writer_delay = *r.pick(&[0u8, 1, 2, 3, 5, 8, 13, 21, 30]);
             }
             "C21" => {
                 let k = r.range(1, 2);
